@@ -114,6 +114,31 @@ def run_one(sc):
         return dict(status=status, files=scen.read_outputs(d, sc))
 
 
+def lonlat_rows(job):
+    """Grid.ll2xy of each lon/lat row alone, of all rows together and of the rows in reverse order."""
+    use_repo()
+    from ladim.ROMS import Grid
+    from ladim.sample import sample2D
+    lon, lat = job["lon"], job["lat"]
+    jmax, imax = lon.shape
+    try:
+        with lab.scratch() as d:
+            lab.make_grid_forcing(d / "g.nc", [0], imax=imax, jmax=jmax, N=2, lon=lon, lat=lat, dx=job["dx"])
+            grid = Grid(filename=d / "g.nc", subgrid=job["subgrid"])
+        tg = [(float(sample2D(lon, np.array(x), np.array(y))), float(sample2D(lat, np.array(x), np.array(y)))) for x, y in job["pts"]]
+        lo = np.array([t[0] for t in tg]); la = np.array([t[1] for t in tg])
+        X, Y = grid.ll2xy(lo, la)
+        Xr, Yr = grid.ll2xy(lo[::-1].copy(), la[::-1].copy())
+        alone = []
+        for k in range(len(tg)):
+            x1, y1 = grid.ll2xy(lo[k:k + 1].copy(), la[k:k + 1].copy())
+            alone.append([float(x1[0]), float(y1[0])])
+        return dict(targets=tg, alone=alone, together=[[float(a), float(b)] for a, b in zip(X, Y)],
+                    reversed=[[float(a), float(b)] for a, b in zip(Xr[::-1], Yr[::-1])])
+    except Exception as e:  # noqa: BLE001
+        return dict(error=type(e).__name__ + ": " + str(e)[:100])
+
+
 def own_death(sc):
     """(row key, copy) -> step at which the scripted IBM kills it"""
     pm = pid_map(sc)
@@ -183,3 +208,26 @@ def run(ctx: Ctx):
             ctx.violation("failing-input", "pair", dict(base=scen.brief(base), variant=kind, variant_rows=sc["rows"], variant_kill=sc["kill"], shift=sc.get("_shift", 0)),
                           dict(bad, theorem="Ladim.C14.particle_independent / subset_permutation_invariant / time_shift_invariant / deterministic"),
                           tags=dict(first=kind))
+
+    # ---- release positions given by longitude/latitude: a row's start position depends on its own lon/lat only
+    from harness.props.c16 import polar_grid
+    ljobs = []
+    for k in range(12 if ctx.thorough else 4):
+        dx = [4000.0, 800.0, 20000.0][k % 3]
+        imax, jmax = 40, 30
+        lon, lat = polar_grid(imax, jmax, dx, xp=float(r.uniform(-100, 200)) * 4000 / dx, yp=float(r.uniform(600, 1200)) * 4000 / dx, ylon=float(r.uniform(0, 60)))
+        pts = [(float(r.uniform(2.0, imax - 3.5)), float(r.uniform(2.0, jmax - 3.5))) for _ in range(6)]
+        ljobs.append(dict(lon=lon, lat=lat, dx=dx, pts=pts, subgrid=None if k % 2 == 0 else [3, 35, 2, 27]))
+    for job, g in zip(ljobs, pmap(lonlat_rows, ljobs)):
+        case = dict(dx=job["dx"], subgrid=job["subgrid"], rows_lonlat=g.get("targets"))
+        ctx.case("lonlat-rows", [job["dx"], str(job["subgrid"]), str(job["pts"])], sample=case)
+        if "error" in g:
+            ctx.violation("tie-broken", "lonlat-rows", case, dict(implementation=g["error"])); continue
+        for k, (alone, together, rev) in enumerate(zip(g["alone"], g["together"], g["reversed"])):
+            if alone != together or alone != rev:
+                ctx.violation("failing-input", "lonlat-rows", case,
+                              dict(row=k, start_position_alone=alone, with_the_other_rows=together, with_the_rows_reversed=rev,
+                                   note="Grid.ll2xy of a release row must not depend on the other rows of the release file",
+                                   theorem="Ladim.C14.particle_independent (release data of the particle itself)"),
+                              tags=dict(first="lonlat"))
+                break
